@@ -507,7 +507,7 @@ pub fn run(ctx: &Ctx) {
         run_attack,
     );
     ctx.extra("exhaustive_stage", json!({"growth_pairs_up_to": nmax, "sessions_attacked_at_last_request": n, "exhaustive": true}));
-    random_stage(ctx, "random", ctx.tier.pick(1_500, 40_000), attack_strategy, |a: &Attack, local| run_attack(a, local));
+    random_stage(ctx, "random", ctx.tier.pick(8_000, 40_000), attack_strategy, |a: &Attack, local| run_attack(a, local));
 }
 
 pub fn replay(case: &Value) -> Check {
